@@ -82,3 +82,90 @@ def vsample(run):
         got = list(v.sample(k))
         ok = len(got) == min(n, k) and got == sorted(set(got)) and all(0 <= x < n for x in got)
         run.check([n, k, seed], ok, expected="distinct elements in order", got=got, clause="sample")
+
+
+# ---- C11 ---------------------------------------------------------------------------------------------
+RANK_POOLS = {"int": [1, 2, 3], "float": [0.5, 1.5, float("nan")], "str": ["a", "b", ""], "date": POOLS["date"] + [np.datetime64("2021-01-01")],
+              "obj": [None, 1, 2]}
+
+
+def rank_vectors(maxlen):
+    for k, pool in RANK_POOLS.items():
+        for n in range(maxlen + 1):
+            for combo in itertools.product(pool, repeat=n):
+                yield k, enc(list(combo))
+
+
+def before(x, y):
+    """x is ordered strictly before y: missing after all others; otherwise by value"""
+    if is_missing(x):
+        return False
+    if is_missing(y):
+        return True
+    return bool(x < y)
+
+
+def equalish(x, y):
+    return (is_missing(x) and is_missing(y)) or (not is_missing(x) and not is_missing(y) and bool(x == y))
+
+
+@driver(PV + "rank[empty vector (proved); formulas bounded]")
+def rank_driver(run):
+    mlen = 5 if run.tier == "thorough" else 4
+    run.bound = f"all vectors of <= {mlen} elements over 3-value pools with ties and missing values, kinds int/float/str/date/object; methods min, max, ordinal"
+    for k, vals in run.inputs(rank_vectors(mlen)):
+        v = mkcol(k, dec(vals))
+        xs = list(v)
+        n = len(xs)
+        try:
+            rmin, rmax, rord = list(v.rank(method="min")), list(v.rank(method="max")), list(v.rank(method="ordinal"))
+            emin = [1 + sum(before(y, x) for y in xs) for x in xs]
+            emax = [sum(before(y, x) or equalish(y, x) for y in xs) for x in xs]
+            ok = rmin == emin and rmax == emax
+            # ordinal: a permutation of 1..n, consistent with the order, ties by position
+            ok = ok and sorted(rord) == list(range(1, n + 1))
+            for i in range(n):
+                for j in range(n):
+                    if before(xs[i], xs[j]) or (equalish(xs[i], xs[j]) and i < j):
+                        ok = ok and rord[i] < rord[j]
+            obs = [rmin, rmax, rord]
+        except Exception as e:
+            ok, obs, emin, emax = False, f"raised {type(e).__name__}: {e}", None, None
+        run.check([k, vals], ok, expected=[emin, emax], got=obs, clause="rank formulas")
+
+
+@driver(PV + "_optimize_for_argsort[order-isomorphism: bounded only]")
+def optimize_driver(run):
+    run.bound = "string vectors of <= 3 elements over {'', 'a', 'b', 'ab', 50-char, astral}; other kinds: identity"
+    pool = ["", "a", "b", "ab", "b" * 50, "\U0001F600"]
+    def gen():
+        for n in range(4):
+            for combo in itertools.product(pool, repeat=n):
+                yield list(combo)
+    for (vals,) in run.inputs(((v,) for v in gen())):
+        v = Vector(vals, str)
+        o = v._optimize_for_argsort()
+        ok = len(o) == len(v)
+        for i in range(len(v)):
+            for j in range(len(v)):
+                ok = ok and bool(o[i] == o[j]) == bool(v[i] == v[j]) and bool(o[i] < o[j]) == bool(v[i] < v[j])
+        w = Vector([1.5, float("nan")])
+        ok = ok and w._optimize_for_argsort() is w
+        run.check([vals], ok, expected="same == and < on all pairs", got=list(o), clause="order-isomorphism")
+
+
+vdriver("sort[ascending]", none, lambda v: v.sort(), lambda v: sorted([x for x in v if not is_missing(x)]) + [x for x in v if is_missing(x)],
+        kinds=("int", "float", "str", "date", "bool"))
+vdriver("sort[descending]", none, lambda v: v.sort(dir=-1), lambda v: sorted([x for x in v if not is_missing(x)], reverse=True) + [x for x in v if is_missing(x)],
+        kinds=("int", "float", "str", "date", "bool"))
+
+
+def _uniq(v):
+    out = []
+    for x in v:
+        if not any(equalish(x, y) for y in out):
+            out.append(x)
+    return out
+
+
+vdriver("unique", none, lambda v: v.unique(), _uniq, kinds=("int", "float", "str", "date", "bool"))
